@@ -187,7 +187,8 @@ def cases(tier, seed, spec):
     yield from targeted()
     # thousands of objects, a handful of properties (the wide shape would give millions of pairs)
     yield from (c for c in gen.huge(seed, 8 if tier == 'quick' else 48) if len(c['properties']) < 50)
-    yield from gen.ctx_stream(tier, seed, with_wide=(tier == 'thorough'))
+    # relations() is quadratic in the number of properties: keep that axis <= 200
+    yield from (c for c in gen.ctx_stream(tier, seed, with_wide=(tier == 'thorough')) if len(c['properties']) <= 200)
 
 
 def run_case(concepts, case, spec):
